@@ -495,5 +495,63 @@ def rule_a9(repo):
     return res
 
 
+def renumbering_rule(repo, rid):
+    """Inserting or deleting a line renumbers the lines behind it *and every line of their subproofs*
+    (ids 2.0, 2.1 below line 2 move with line 2), in the id of each item and in every citation.  In ItemID the
+    two renumbering functions must therefore (a) admit ids that are longer than the reference id - the length
+    test is an ordering, not an equality - and (b) rebuild the id from prefix, adjusted component and the
+    *remaining components*.  Renumbering only ids of the same depth leaves the subproof of a moved line under
+    its old number: citations point at the wrong line and the proof no longer checks after a deletion."""
+    res = RuleResult(rid, 'renumbering after an insertion or deletion moves the ids of every depth below the changed position', floor=2)
+    cls = repo.module('kernel/proof.py').classes['ItemID']
+    for mname in ('incr_id_after', 'decr_id'):
+        f = need(cls.find_method(mname), 'ItemID.%s not found' % mname)
+        ps = f.params()
+        ref = ps[1]
+        # names bound to len(<ref>.id)
+        lens = {n.targets[0].id for n in ast.walk(f.node) if isinstance(n, ast.Assign) and isinstance(n.targets[0], ast.Name) and
+                src(n.value, 60).replace(' ', '') == 'len(%s.id)' % ref}
+
+        def is_reflen(e):
+            return (isinstance(e, ast.Name) and e.id in lens) or src(e, 60).replace(' ', '') == 'len(%s.id)' % ref
+
+        def is_selflen(e):
+            return src(e, 60).replace(' ', '') == 'len(self.id)'
+        ifs = [n for n in walk_no_nested(f.node, include_root=False) if isinstance(n, ast.If)]
+        need(ifs, 'ItemID.%s: no case distinction found' % mname)
+        problems = []
+        length_tests = []
+        for c in ast.walk(ifs[0].test):
+            cp = compare_parts(c) if isinstance(c, ast.Compare) else None
+            if not cp:
+                continue
+            if is_selflen(cp[1]) and is_reflen(cp[2]):
+                length_tests.append((cp[0], c))
+            elif is_reflen(cp[1]) and is_selflen(cp[2]):
+                length_tests.append(({ast.LtE: ast.GtE, ast.Lt: ast.Gt, ast.GtE: ast.LtE, ast.Gt: ast.Lt}.get(cp[0], cp[0]), c))
+        for op, c in length_tests:
+            if op is not ast.GtE:
+                problems.append('the length test `%s` excludes the ids of the subproofs below a renumbered line' % src(c, 50))
+        if not length_tests:
+            need(False, 'ItemID.%s: test on the length of the id not recognised' % mname)
+        # the rebuilt id keeps the remaining components: some return in the if-body contains the slice self.id[<reflen>:]
+        rets = [r for st in ifs[0].body for r in ast.walk(st) if isinstance(r, ast.Return) and r.value is not None]
+        need(rets, 'ItemID.%s: no result in the renumbering case' % mname)
+        for r in rets:
+            keeps = any(isinstance(x, ast.Subscript) and isinstance(x.slice, ast.Slice) and x.slice.upper is None and x.slice.lower is not None and
+                        is_reflen(x.slice.lower) and src(x.value, 20) == 'self.id' for x in ast.walk(r.value))
+            if not keeps:
+                problems.append('the result `%s` does not carry the components behind position len(%s.id) over' % (src(r.value, 50), ref))
+        res.add('kernel/proof.py :: ItemID.%s :: all-depths' % mname, not problems,
+                'ids at least as long as the reference id are renumbered and keep their remaining components' if not problems else
+                '; '.join(problems) + ' -- after the edit the lines of a moved subproof keep their old numbers and citations point at other lines',
+                f.loc)
+    return res
+
+
+def rule_a10(repo):
+    return renumbering_rule(repo, 'C13.A10')
+
+
 def rules(repo):
-    return [rule_a1(repo), rule_a2(repo), rule_a3(repo), rule_a4(repo), rule_a5(repo), rule_a6(repo), rule_a7(repo), rule_a8(repo), rule_a9(repo)]
+    return [rule_a1(repo), rule_a2(repo), rule_a3(repo), rule_a4(repo), rule_a5(repo), rule_a6(repo), rule_a7(repo), rule_a8(repo), rule_a9(repo), rule_a10(repo)]
